@@ -187,7 +187,8 @@ Definition check_req (impl : fixes) (c : qcase) : verdict :=
        v_guards := [] |}
   | QRecover h obs =>
     {| v_corr := Z.eqb (recovery_mw h) obs;
-       v_prop := match h with Panicked _ => negb (success obs) | Answered _ => true end;
+       (* the driver reports -1 when the panic escaped the middleware: no response at all *)
+       v_prop := match h with Panicked _ => negb (success obs) && Z.leb 100 obs | Answered _ => true end;
        v_guards := [] |}
   end.
 
